@@ -271,6 +271,46 @@ def hull_volume(points):
     return sum(volume([P[i] for i in s]) for s in tri)
 
 
+def supporting_facets(points):
+    """the supporting hyperplanes of conv(points) that hold a facet, by brute force over all d-subsets (exact; any
+    degeneracy): list of (comb, n, c, inner) -- `comb` d point indices spanning the hyperplane n.x = c, and
+    inner = +1 / -1 the sign of n.x - c on the side where the points are"""
+    d = len(points[0])
+    idx = range(len(points))
+    seen = {}
+    for comb in itertools.combinations(idx, d):
+        hp = _hyperplane([points[i] for i in comb])
+        if hp is None:
+            continue
+        n, c = hp
+        side = [dot(n, points[i]) - c for i in idx]
+        if all(s >= 0 for s in side):
+            inner = 1
+        elif all(s <= 0 for s in side):
+            inner = -1
+        else:
+            continue
+        on = frozenset(i for i, s in zip(idx, side) if s == 0)
+        if on not in seen:
+            seen[on] = (comb, n, c, inner)
+    return list(seen.values())
+
+
+def x_outside_hull(points, p):
+    """Is p strictly outside conv(points)?  (outside, margin, comb): the margin is that of the orientation test of
+    p against the facet hyperplane it is farthest beyond (|det| / product of the row norms, as x_orientation),
+    `comb` the d points spanning that hyperplane.  Independent of the triangulation and of every recorded
+    predicate: written from 'the convex hull of the points' only."""
+    best = (False, 0.0, None)
+    for comb, n, c, inner in supporting_facets(points):
+        s = dot(n, p) - c
+        if s * inner < 0:
+            e, m = x_orientation([points[i] for i in comb], p)
+            if e != 0 and m > best[1]:
+                best = (True, m, comb)
+    return best
+
+
 def general_position(points, T):
     """no d+1 points on a hyperplane and no d+2 points on a sphere (in the metric)"""
     d = len(points[0])
